@@ -173,7 +173,6 @@ theorem histogram_chunks (edges : List Int) (cs : List (List Int)) (h : cs ≠ [
     histogramStream edges cs = histogramMem edges cs.flatten := by
   unfold histogramStream histogramMem
   rw [if_neg h, histogramReduce_chunks edges cs h]
-  cases edgesMono edges <;> simp
 
 /-- `edgesMono` pinned by the standard notion: every edge is at most the next one -/
 theorem edgesMono_iff (e : List Int) : edgesMono e = true ↔ ∀ i (h : i + 1 < e.length), e[i]'(by omega) ≤ e[i + 1] := by
@@ -190,10 +189,10 @@ theorem edgesMono_iff (e : List Int) : edgesMono e = true ↔ ∀ i (h : i + 1 <
       · rintro ⟨hab, hrest⟩ i hi
         cases i with
         | zero => simpa using hab
-        | succ j => simpa using hrest j (by simpa using hi)
+        | succ j => exact hrest j (by simpa using hi)
       · intro hall
         refine ⟨by simpa using hall 0 (by simp), fun i hi => ?_⟩
-        simpa using hall (i + 1) (by simpa using hi)
+        exact hall (i + 1) (by simpa using hi)
 
 /-- the in-memory histogram raises exactly on edges that decrease somewhere (any number of edges is accepted:
 fewer than two give no bins) -/
@@ -207,9 +206,9 @@ theorem histogramMem_error_iff (e : List Int) (c : List Int) :
     · exact hx
     · exfalso
       have : edgesMono e = true := hm.2 (fun i hi => by
-        rcases Int.lt_or_ge (e[i + 1]) (e[i]'(by omega)) with hlt | hge
+        by_cases hlt : e[i + 1] < e[i]'(by omega)
         · exact absurd ⟨i, hi, hlt⟩ hx
-        · exact hge)
+        · omega)
       simp [hE] at this
   · simp only [if_true, reduceCtorEq, false_iff]
     rintro ⟨i, hi, hlt⟩
@@ -1440,6 +1439,22 @@ def NodeRel (g : List NodeDef) (lens : List Nat) (n : Nat) (A : List (List Int))
 def EwOn (g : List NodeDef) (P : Nat → Prop) : Prop :=
   ∀ (n : Nat) (f : Fn) (a b : Arg), P n → g[n]? = some (NodeDef.comp f a b) → f.elementwise = true
 
+/-- every `ComputationNode` in the set `P` applies an element-wise function or indexes a node by a boolean mask node -/
+def EwSelOn (g : List NodeDef) (P : Nat → Prop) : Prop :=
+  ∀ (n : Nat) (f : Fn) (a b : Arg), P n → g[n]? = some (NodeDef.comp f a b) →
+    f.elementwise = true ∨ (f = Fn.sel ∧ ∃ x y, a = Arg.node x ∧ b = Arg.node y)
+
+/-- the streamed run is shape-correct: in each of the `K` buffers the two node operands of a node in `P` have the
+same length (what NumPy needs to apply a binary ufunc / a boolean index to one buffer; automatic when no operand
+is below a mask selection, `shapeOK_of_aligned`) -/
+def ShapeOK (g : List NodeDef) (K : Nat) (P : Nat → Prop) : Prop :=
+  ∀ (n : Nat) (f : Fn) (x y : Nat), P n → g[n]? = some (NodeDef.comp f (Arg.node x) (Arg.node y)) →
+    ∀ i, i < K → ∀ u v, valAt g i (x + 1) x = some u → valAt g i (y + 1) y = some v → u.length = v.length
+
+/-- a chunked value `A` (one chunk per buffer, of any lengths) describes node `n` -/
+def NodeRelG (g : List NodeDef) (K : Nat) (n : Nat) (A : List (List Int)) : Prop :=
+  A.length = K ∧ (∀ i (h : i < A.length), valAt g i (n + 1) n = some A[i]) ∧ evalMem g (n + 1) n = some A.flatten
+
 theorem node_chunks (g : List NodeDef) (hg : WFG g) (hna : HasNodeArg g) (lens : List Nat) (ha : Aligned g lens)
     (P : Nat → Prop) (hP : ∀ n d, P n → g[n]? = some d → ∀ m ∈ nodeArgs d, P m) (hew : EwOn g P) :
     ∀ n, P n → n < g.length → ∃ A, NodeRel g lens n A := by
@@ -1788,32 +1803,26 @@ def RedRoot (g : List NodeDef) (r : Nat) : Prop :=
   ∃ (f : Fn) (a : Nat) (c : Int), g[r]? = some (NodeDef.comp f (Arg.node a) (Arg.const c)) ∧
     f.elementwise = false ∧ f ≠ Fn.sel ∧ EwOn g (Reach g a)
 
-/-- **reductions, streamed = in memory**: folding the per-buffer results of `np.sum` / `sum_and_n` /
-`np.histogram(·, edges)` nodes over all buffers (one or several reductions computed together) gives,
-for every reduction, its value on the concatenated data — for every common cutting of the streams. -/
-theorem graph_reduced_value (g : List NodeDef) (hg : WFG g) (hna : HasNodeArg g) (lens : List Nat) (ha : Aligned g lens)
-    (hpos : 0 < lens.length) (roots : List Nat) (hne : roots ≠ []) (fuel : Nat)
-    (hred : ∀ r ∈ roots, RedRoot g r) (hroots : ∀ r ∈ roots, r < g.length) (hf : lens.length < fuel) :
+/-- the fold of per-buffer reduction results, given chunked descriptions of the reductions' arguments -/
+theorem graph_reduced_core (g : List NodeDef) (hg : WFG g) (hna : HasNodeArg g) (K0 : Nat)
+    (hch : ∀ (n : Nat) (cs : List (List Int)), g[n]? = some (NodeDef.stream cs) → cs.length = K0)
+    (hpos : 0 < K0) (roots : List Nat) (hne : roots ≠ []) (fuel : Nat)
+    (hred : ∀ r ∈ roots, ∃ (f : Fn) (a : Nat) (c : Int) (A : List (List Int)),
+      g[r]? = some (NodeDef.comp f (Arg.node a) (Arg.const c)) ∧ f.elementwise = false ∧ f ≠ Fn.sel ∧ NodeRelG g K0 a A)
+    (hroots : ∀ r ∈ roots, r < g.length) (hf : K0 < fuel) :
     ∃ res st, computeReduced g roots fuel = .ok (some res, st) ∧
       res.map some = roots.map (fun r => evalMem g (r + 1) r) := by
-  have hch : ∀ (n : Nat) (cs : List (List Int)), g[n]? = some (NodeDef.stream cs) → cs.length = lens.length := by
-    intro n cs h
-    have := congrArg List.length (ha n cs h)
-    simpa using this
-  obtain ⟨st, _, hc⟩ := graph_compute_many g hg hna roots hne lens.length fuel hroots hpos hf hch
-  obtain ⟨K, hK⟩ : ∃ K, lens.length = K + 1 := ⟨lens.length - 1, by omega⟩
+  obtain ⟨st, _, hc⟩ := graph_compute_many g hg hna roots hne K0 fuel hroots hpos hf hch
+  obtain ⟨K, hK⟩ : ∃ K, K0 = K + 1 := ⟨K0 - 1, by omega⟩
   -- per root: chunks of the argument, running values
   have hper : ∀ r ∈ roots, ∃ P : Nat → List Int,
       P 0 = (valAt g 0 (r + 1) r).getD [] ∧
       (∀ k, k < K → List.zipWith (· + ·) (P k) ((valAt g (k + 1) (r + 1) r).getD []) = P (k + 1)) ∧
       evalMem g (r + 1) r = some (P K) := by
     intro r hr
-    obtain ⟨f, a, c, hd, hf', hsel, hewa⟩ := hred r hr
+    obtain ⟨f, a, c, A, hd, hf', hsel, a1, a2, a3⟩ := hred r hr
     have har : a < r := hg r _ hd a (by simp [nodeArgs, argNodes])
-    obtain ⟨A, a1, a2, a3⟩ := node_chunks g hg hna lens ha (Reach g a) (fun n d hn hd m hm => Reach.step hn hd hm) hewa a
-      Reach.root (by have := hroots r hr; omega)
-    have hAl : A.length = K + 1 := by
-      have := congrArg List.length a1; simp at this; omega
+    have hAl : A.length = K + 1 := by omega
     have hval : ∀ i (h : i < A.length), valAt g i (r + 1) r = some (applyRed f A[i]) := by
       intro i h
       simp only [valAt, hd, argValWith, har, ↓reduceIte]
@@ -1855,6 +1864,26 @@ theorem graph_reduced_value (g : List NodeDef) (hg : WFG g) (hna : HasNodeArg g)
     congr 1
   · rw [List.map_map]
     exact List.map_congr_left (fun r hr => ((hP r hr).2.2).symm)
+
+/-- **reductions, streamed = in memory**: folding the per-buffer results of `np.sum` / `sum_and_n` /
+`np.histogram(·, edges)` nodes over all buffers (one or several reductions computed together) gives,
+for every reduction, its value on the concatenated data — for every common cutting of the streams. -/
+theorem graph_reduced_value (g : List NodeDef) (hg : WFG g) (hna : HasNodeArg g) (lens : List Nat) (ha : Aligned g lens)
+    (hpos : 0 < lens.length) (roots : List Nat) (hne : roots ≠ []) (fuel : Nat)
+    (hred : ∀ r ∈ roots, RedRoot g r) (hroots : ∀ r ∈ roots, r < g.length) (hf : lens.length < fuel) :
+    ∃ res st, computeReduced g roots fuel = .ok (some res, st) ∧
+      res.map some = roots.map (fun r => evalMem g (r + 1) r) := by
+  have hch : ∀ (n : Nat) (cs : List (List Int)), g[n]? = some (NodeDef.stream cs) → cs.length = lens.length := by
+    intro n cs h
+    have := congrArg List.length (ha n cs h)
+    simpa using this
+  refine graph_reduced_core g hg hna lens.length hch hpos roots hne fuel ?_ hroots hf
+  intro r hr
+  obtain ⟨f, a, c, hd, hf', hsel, hewa⟩ := hred r hr
+  have har : a < r := hg r _ hd a (by simp [nodeArgs, argNodes])
+  obtain ⟨A, a1, a2, a3⟩ := node_chunks g hg hna lens ha (Reach g a) (fun n d hn hd m hm => Reach.step hn hd hm) hewa a
+    Reach.root (by have := hroots r hr; omega)
+  exact ⟨f, a, c, A, hd, hf', hsel, by have := congrArg List.length a1; simpa using this, a2, a3⟩
 
 
 
@@ -1933,6 +1962,201 @@ theorem graph_filter_value (g : List NodeDef) (hg : WFG g) (hna : HasNodeArg g) 
   refine ⟨_, st, hc, ?_⟩
   rw [hmem, applySel_flatten A M (by rw [a1, m1])]
 
+
+/-! ### compositions: mask selections anywhere below element-wise functions and reductions
+(`a[mask] + 1`, `np.sum(a[mask])`, `a[m1][m2]`, `np.histogram((a * b)[a > c], edges)`, ...) -/
+
+theorem lengths_of_getElem (A B : List (List Int)) (K : Nat) (hA : A.length = K) (hB : B.length = K)
+    (h : ∀ i (h1 : i < A.length) (h2 : i < B.length), A[i].length = B[i].length) :
+    A.map List.length = B.map List.length := by
+  apply List.ext_getElem
+  · simp [hA, hB]
+  · intro i h1 h2
+    simp only [List.length_map] at h1 h2
+    simp only [List.getElem_map]
+    exact h i h1 h2
+
+theorem node_chunks_sel (g : List NodeDef) (hg : WFG g) (hna : HasNodeArg g) (K : Nat)
+    (hch : ∀ (n : Nat) (cs : List (List Int)), g[n]? = some (NodeDef.stream cs) → cs.length = K)
+    (P : Nat → Prop) (hP : ∀ n d, P n → g[n]? = some d → ∀ m ∈ nodeArgs d, P m) (hes : EwSelOn g P) (hsh : ShapeOK g K P) :
+    ∀ n, P n → n < g.length → ∃ A, NodeRelG g K n A := by
+  intro n
+  induction n using Nat.strongRecOn with
+  | _ n ih =>
+    intro hnb hn
+    have hd : g[n]? = some g[n] := List.getElem?_eq_getElem hn
+    cases hdn : g[n] with
+    | stream cs =>
+      rw [hdn] at hd
+      refine ⟨cs, hch n cs hd, ?_, ?_⟩
+      · intro i h; simp [valAt, hd, List.getElem?_eq_getElem h]
+      · simp [evalMem, hd]
+    | comp f a b =>
+      rw [hdn] at hd
+      have hlt : ∀ m ∈ nodeArgs (.comp f a b), m < n := hg n _ hd
+      have hnode : ∀ m, m ∈ nodeArgs (.comp f a b) → ∃ A : List (List Int), A.length = K ∧
+          (∀ i (h : i < A.length), valAt g i n m = some A[i] ∧ valAt g i (m + 1) m = some A[i]) ∧
+          evalMem g n m = some A.flatten := by
+        intro m hm
+        have hmn := hlt m hm
+        obtain ⟨A, h1, h2, h3⟩ := ih m hmn (hP n _ hnb hd m hm) (by omega)
+        refine ⟨A, h1, fun i h => ⟨?_, h2 i h⟩, ?_⟩
+        · rw [valAt_fuel2 g i n (m + 1) m hmn (by omega)]; exact h2 i h
+        · rw [evalMem_fuel2 g n (m + 1) m hmn (by omega)]; exact h3
+      cases a with
+      | const c =>
+        cases b with
+        | const d =>
+          have hne := hna n f _ _ hd
+          simp [argNodes] at hne
+        | node y =>
+          have hf : f.elementwise = true := by
+            rcases hes n f _ _ hnb hd with h | ⟨_, x, y', hx, _⟩
+            · exact h
+            · cases hx
+          obtain ⟨B, b1, b2, b3⟩ := hnode y (by simp [nodeArgs, argNodes])
+          have hy : y < n := hlt y (by simp [nodeArgs, argNodes])
+          refine ⟨B.map (fun yv => yv.map (fun v => f.app c v)), by simpa using b1, ?_, ?_⟩
+          · intro i h
+            simp only [List.length_map] at h
+            simp only [valAt, hd, argValWith, hy, ↓reduceIte, (b2 i h).1, Option.map_some, Option.bind_some, applyFn, hf,
+              applyEw, List.getElem_map]
+          · simp only [evalMem, hd, argValWith, hy, ↓reduceIte, b3, Option.map_some, Option.bind_some, applyFn, hf, applyEw,
+              List.map_flatten]
+      | node x =>
+        have hx : x < n := hlt x (by simp [nodeArgs, argNodes])
+        obtain ⟨A, a1, a2, a3⟩ := hnode x (by simp [nodeArgs, argNodes])
+        cases b with
+        | const d =>
+          have hf : f.elementwise = true := by
+            rcases hes n f _ _ hnb hd with h | ⟨_, x', y', _, hy'⟩
+            · exact h
+            · cases hy'
+          refine ⟨A.map (fun xv => xv.map (fun v => f.app v d)), by simpa using a1, ?_, ?_⟩
+          · intro i h
+            simp only [List.length_map] at h
+            simp only [valAt, hd, argValWith, hx, ↓reduceIte, (a2 i h).1, Option.map_some, Option.bind_some, applyFn, hf,
+              applyEw, List.getElem_map]
+          · simp only [evalMem, hd, argValWith, hx, ↓reduceIte, a3, Option.map_some, Option.bind_some, applyFn, hf, applyEw,
+              List.map_flatten]
+        | node y =>
+          have hy : y < n := hlt y (by simp [nodeArgs, argNodes])
+          obtain ⟨B, b1, b2, b3⟩ := hnode y (by simp [nodeArgs, argNodes])
+          have hAB : A.map List.length = B.map List.length :=
+            lengths_of_getElem A B K a1 b1 (fun i h1 h2 =>
+              hsh n f x y hnb hd i (by omega) _ _ (a2 i h1).2 (b2 i h2).2)
+          rcases hes n f _ _ hnb hd with hf | ⟨hf, _⟩
+          · refine ⟨List.zipWith (List.zipWith f.app) A B, by simp [a1, b1], ?_, ?_⟩
+            · intro i h
+              simp only [List.length_zipWith] at h
+              simp only [valAt, hd, argValWith, hx, hy, ↓reduceIte, (a2 i (by omega)).1, (b2 i (by omega)).1, Option.map_some,
+                Option.bind_some, applyFn, hf, applyEw, List.getElem_zipWith]
+            · simp only [evalMem, hd, argValWith, hx, hy, ↓reduceIte, a3, b3, Option.map_some, Option.bind_some, applyFn, hf,
+                applyEw]
+              rw [zipWith_flatten f.app A B hAB]
+          · subst hf
+            refine ⟨List.zipWith applySel A B, by simp [a1, b1], ?_, ?_⟩
+            · intro i h
+              simp only [List.length_zipWith] at h
+              simp only [valAt, hd, argValWith, hx, hy, ↓reduceIte, (a2 i (by omega)).1, (b2 i (by omega)).1, Option.map_some,
+                Option.bind_some, List.getElem_zipWith]
+              simp [applyFn, Fn.elementwise]
+            · simp only [evalMem, hd, argValWith, hx, hy, ↓reduceIte, a3, b3, Option.map_some, Option.bind_some]
+              simp [applyFn, Fn.elementwise, applySel_flatten A B hAB]
+
+/-- without mask selections the streamed run is always shape-correct when the streams are cut alike -/
+theorem shapeOK_of_aligned (g : List NodeDef) (hg : WFG g) (hna : HasNodeArg g) (lens : List Nat) (ha : Aligned g lens)
+    (P : Nat → Prop) (hP : ∀ n d, P n → g[n]? = some d → ∀ m ∈ nodeArgs d, P m) (hew : EwOn g P)
+    (hlen : ∀ n, P n → n < g.length) : ShapeOK g lens.length P := by
+  intro n f x y hn hd i hi u v hu hv
+  have hx : P x := hP n _ hn hd x (by simp [nodeArgs, argNodes])
+  have hy : P y := hP n _ hn hd y (by simp [nodeArgs, argNodes])
+  obtain ⟨A, a1, a2, _⟩ := node_chunks g hg hna lens ha P hP hew x hx (hlen x hx)
+  obtain ⟨B, b1, b2, _⟩ := node_chunks g hg hna lens ha P hP hew y hy (hlen y hy)
+  have hAl : A.length = lens.length := by have := congrArg List.length a1; simpa using this
+  have hBl : B.length = lens.length := by have := congrArg List.length b1; simpa using this
+  have e1 := a2 i (by omega)
+  have e2 := b2 i (by omega)
+  rw [hu] at e1; rw [hv] at e2
+  cases e1; cases e2
+  have h1 : (A.map List.length)[i]'(by simp; omega) = (B.map List.length)[i]'(by simp; omega) := by
+    simp only [a1, b1]
+  simpa using h1
+
+/-- **any composition of element-wise functions and mask selections, streamed = in memory**: for every graph
+in construction order whose streams have the same number of buffers, whose nodes below the root are
+element-wise functions or `node[mask_node]` selections in any arrangement (`a[m] + 1`, `a[m1][m2]`,
+`(a + b)[a > c] * 2`, ...), and whose streamed run is shape-correct buffer by buffer, `compute()` of the root
+returns exactly the in-memory value of the same expression on the concatenated streams. `graph_value` and
+`graph_filter_value` are the special cases without / with one selection at the root. -/
+theorem graph_value_sel (g : List NodeDef) (hg : WFG g) (hna : HasNodeArg g) (K : Nat)
+    (hch : ∀ (n : Nat) (cs : List (List Int)), g[n]? = some (NodeDef.stream cs) → cs.length = K)
+    (hpos : 0 < K) (root fuel : Nat) (hes : EwSelOn g (Reach g root)) (hsh : ShapeOK g K (Reach g root))
+    (hroot : root < g.length) (hf : K < fuel) :
+    ∃ v st, computeGraph g root fuel = .ok (v, st) ∧ evalMem g (root + 1) root = some v := by
+  obtain ⟨vs, st, hc, hvs⟩ := graph_compute g hg hna root K fuel hroot hpos hf hch
+  obtain ⟨A, h1, h2, h3⟩ := node_chunks_sel g hg hna K hch (Reach g root) (fun n d hn hd m hm => Reach.step hn hd hm) hes hsh
+    root Reach.root hroot
+  have : vs = A := by
+    have e : List.map some vs = List.map some A := by
+      rw [hvs]
+      apply List.ext_getElem
+      · simp [h1]
+      · intro i hi1 hi2
+        simp only [List.getElem_map, List.getElem_range]
+        exact h2 i (by simpa using hi2)
+    exact map_some_inj _ _ e
+  subst this
+  exact ⟨vs.flatten, st, hc, h3⟩
+
+/-- a root that is the inner node of a reduction over any composition of element-wise functions and mask
+selections (`np.sum(a[mask])`, `np.histogram((a * b)[a > c], edges)`, `mean(a[m1][m2] + 1)`, ...) -/
+def RedSelRoot (g : List NodeDef) (K : Nat) (r : Nat) : Prop :=
+  ∃ (f : Fn) (a : Nat) (c : Int), g[r]? = some (NodeDef.comp f (Arg.node a) (Arg.const c)) ∧
+    f.elementwise = false ∧ f ≠ Fn.sel ∧ EwSelOn g (Reach g a) ∧ ShapeOK g K (Reach g a)
+
+/-- **reductions over compositions with mask selections, streamed = in memory** (`np.sum(a[mask])` and the like,
+one or several computed together): the fold of the per-buffer results is the reduction's value on the
+in-memory value of its argument, for every common number of buffers and every shape-correct cutting -/
+theorem graph_reduced_filter_value (g : List NodeDef) (hg : WFG g) (hna : HasNodeArg g) (K : Nat)
+    (hch : ∀ (n : Nat) (cs : List (List Int)), g[n]? = some (NodeDef.stream cs) → cs.length = K)
+    (hpos : 0 < K) (roots : List Nat) (hne : roots ≠ []) (fuel : Nat)
+    (hred : ∀ r ∈ roots, RedSelRoot g K r) (hroots : ∀ r ∈ roots, r < g.length) (hf : K < fuel) :
+    ∃ res st, computeReduced g roots fuel = .ok (some res, st) ∧
+      res.map some = roots.map (fun r => evalMem g (r + 1) r) := by
+  refine graph_reduced_core g hg hna K hch hpos roots hne fuel ?_ hroots hf
+  intro r hr
+  obtain ⟨f, a, c, hd, hf', hsel, hes, hsh⟩ := hred r hr
+  have har : a < r := hg r _ hd a (by simp [nodeArgs, argNodes])
+  obtain ⟨A, hA⟩ := node_chunks_sel g hg hna K hch (Reach g a) (fun n d hn hd m hm => Reach.step hn hd hm) hes hsh a
+    Reach.root (by have := hroots r hr; omega)
+  exact ⟨f, a, c, A, hd, hf', hsel, hA⟩
+
+/-- `np.sum(a[a > 1])` on streams cut as [2, 1]: the hypotheses hold and both sides give 5 -/
+def exSel : List NodeDef :=
+  [.stream [[1, 2], [3]], .comp .gt (.node 0) (.const 1), .comp .sel (.node 0) (.node 1), .comp .sum (.node 2) (.const 0)]
+
+example : (computeReduced exSel [3] 5).toOption.map (·.1) = some (some [[5]]) ∧ evalMem exSel 4 3 = some [5] := by decide
+
+example : EwSelOn exSel (fun n => n ≤ 2) := by
+  intro n f a b hn hd
+  rcases n with _ | _ | _ | _ | n <;> simp [exSel] at hd
+  · obtain ⟨rfl, rfl, rfl⟩ := hd; exact Or.inl rfl
+  · obtain ⟨rfl, rfl, rfl⟩ := hd; exact Or.inr ⟨rfl, 0, 1, rfl, rfl⟩
+  · omega
+
+example : ShapeOK exSel 2 (fun _ => True) := by
+  intro n f x y _ hd i hi u v hu hv
+  rcases n with _ | _ | _ | _ | n <;> simp [exSel] at hd
+  obtain ⟨rfl, rfl, rfl⟩ := hd
+  rcases i with _ | _ | i
+  · have e1 : valAt exSel 0 1 0 = some [1, 2] := by decide
+    have e2 : valAt exSel 0 2 1 = some [0, 1] := by decide
+    rw [e1] at hu; rw [e2] at hv; cases hu; cases hv; rfl
+  · have e1 : valAt exSel 1 1 0 = some [3] := by decide
+    have e2 : valAt exSel 1 2 1 = some [1] := by decide
+    rw [e1] at hu; rw [e2] at hv; cases hu; cases hv; rfl
+  · omega
 
 /-- a graph with a stream shared by two parents, cut as [2, 1] -/
 def exG : List NodeDef :=
@@ -2162,6 +2386,39 @@ theorem per_chromosome (sizes : List Nat) (ivs : List C10.Iv) (cs : List (List C
   · simp only [streamMask, hb, Option.map_some, hzm, ← hmf]
   · simp only [streamPileupSum, hb, Option.map_some, hzp, Option.some.injEq]
     rw [hpf, sum_map_sum]
+
+/-- **the per-chromosome arrays and their histogram** (`pileup_data`, `pileup_hist`): under the hypotheses of
+`per_chromosome`, the streamed per-chromosome pile-ups are the in-memory pile-up cut at the chromosome borders,
+and (for a genome with at least one chromosome) the histograms of the chromosomes added up by
+`histogram_reduce` are the histogram of the whole in-memory pile-up -/
+theorem per_chromosome_data_hist (edges : List Int) (sizes : List Nat) (ivs : List C10.Iv) (cs : List (List C10.Iv))
+    (hcs : IsChunking ivs cs) (hs : ivs.Pairwise (fun a b => a.c ≤ b.c)) (hv : ∀ iv ∈ ivs, iv.valid sizes = true) :
+    ∃ dense, C10.pileupGlobal sizes ivs = some dense ∧
+      streamPileupData sizes cs = some (C10.toDict sizes dense) ∧
+      (sizes ≠ [] → streamPileupHist edges sizes cs = .ok (histogram edges (dense.map Int.ofNat), edges)) := by
+  have hb := chromBuffers_spec sizes ivs cs hcs hs hv
+  obtain ⟨hp, _⟩ := C10.cover_local sizes ivs hv
+  have hzp : List.zipWith pileup1 sizes ((List.range sizes.length).map (fun c => ivs.filter (fun iv => iv.c = c)))
+      = (List.range sizes.length).map (C10.specPileupChrom sizes ivs) := by
+    rw [zipWith_range_map]
+    apply List.map_congr_left
+    intro c _
+    exact pileup1_spec sizes ivs c
+  simp only [C10.pileupGlobal, C10.omap_toGlobal sizes ivs hv, Option.map_some, Option.some.injEq] at hp ⊢
+  have hpf := congrArg List.flatten hp
+  rw [toDict_flatten sizes _ (by simp)] at hpf
+  refine ⟨_, rfl, ?_, ?_⟩
+  · simp only [streamPileupData, hb, Option.map_some, hzp, hp]
+  · intro hne
+    simp only [streamPileupHist, hb, hzp]
+    have hne2 : ((List.range sizes.length).map (C10.specPileupChrom sizes ivs)).map (fun d => d.map Int.ofNat) ≠ [] := by
+      cases sizes with
+      | nil => exact absurd rfl hne
+      | cons a t => simp [List.range_succ_eq_map]
+    have := histogramReduce_chunks edges _ hne2
+    rw [List.map_map] at this
+    simp only [Function.comp_def] at this
+    rw [this, ← List.map_flatten, hpf]
 
 example : IsChunking ([{ c := 0, s := 3, e := 5 }, { c := 1, s := 0, e := 2 }] : List C10.Iv)
     [[{ c := 0, s := 3, e := 5 }], [{ c := 1, s := 0, e := 2 }]] := rfl
